@@ -18,7 +18,7 @@ func runC11(r *mon.Run) {
 	n := bigN
 	pmn := new(big.Int).Sub(bigP, bigN)
 	for _, c := range []string{"c11:honest", "c11:r<p-n,bit1,on-curve", "c11:r<p-n,bit1,off-curve", "c11:r>=p-n,bit1", "c11:r>=p-n,bit1,wraps-to-curve-x", "c11:r-not-x-coordinate", "c11:Q=infinity", "c11:r=0", "c11:s=0",
-		"c11:id>=4", "c11:digest<32", "c11:digest>32", "c11:recovered", "c11:failed", "c11:x(R)>=n-valid"} {
+		"c11:steered-u2", "c11:steered-u2:glv:short-scalar-window", "c11:steered-u2:glv:limb-carry-boundary", "c11:id>=4", "c11:digest<32", "c11:digest>32", "c11:recovered", "c11:failed", "c11:x(R)>=n-valid"} {
 		r.Require(c)
 	}
 	specials := specialRPoints()
@@ -30,7 +30,36 @@ func runC11(r *mon.Run) {
 		ids := []int{0, 1, 2, 3}
 		var signer *oracle.Pt
 		emitted := -1
-		switch i % 10 {
+		switch i % 12 {
+		case 10, 11:
+			// a VALID signature whose recovery multipliers u2 = s/r (variable-base, GLV) and
+			// u1 = -e/r (fixed-base) are steered into the rare windows of the scalar
+			// decomposition: R = kG, r = x(R) mod n, s = u2 r, e = -u1 r, d = u1 + u2 k
+			for {
+				u2, c2 := glvSteered(rng)
+				u1, c1 := rng.Below(n), "uniform"
+				if rng.Chance(1, 3) {
+					u1, c1 = glvSteered(rng)
+				}
+				k := nonzero(rng.Below(n))
+				R := oracle.MulG(k)
+				rr = oracle.Mod(R.X, n)
+				dd := oracle.AddM(u1, oracle.MulM(u2, k, n), n)
+				if rr.Sign() == 0 || u2.Sign() == 0 || dd.Sign() == 0 {
+					continue
+				}
+				ss = oracle.MulM(u2, rr, n)
+				dig = b32(oracle.NegM(oracle.MulM(u1, rr, n), n))
+				signer = oracle.MulG(dd)
+				emitted = int(R.Y.Bit(0))
+				if R.X.Cmp(n) >= 0 {
+					emitted |= 2
+				}
+				cl = "steered-u2"
+				w.Class("c11:steered-u2:" + c2)
+				w.Class("c11:steered-u1:" + c1)
+				break
+			}
 		case 0, 1:
 			t := honestTuple(rng, false)
 			t.S, t.V = oracle.LowS(t.S, t.V)
